@@ -85,6 +85,14 @@ pub fn replay(id: &str, path: &str) -> i32 {
         }
     };
     let case = if v.get("case").is_some() { v["case"].clone() } else { v.clone() };
+    if case["kind"] == "whole-check" {
+        // the recorded violation is "the check's process is killed by the subject": run the check again
+        let exe = std::env::current_exe().expect("exe");
+        let tier = case["tier"].as_str().unwrap_or("quick").to_string();
+        println!("replaying {}: running the whole {} check once more (the recorded violation is a call into the library that kills the process)", id, tier);
+        let st = std::process::Command::new(exe).args(["check", id, &tier]).env_remove("PGMC_CHILD").status();
+        return st.ok().and_then(|s| s.code()).unwrap_or(2);
+    }
     println!("replaying {} case from {}", id, path);
     if let Some(t) = case.get("text").and_then(|t| t.as_str()) {
         println!("mapping text: {}", t);
